@@ -453,7 +453,7 @@ func writeInitial(dir, initial string) string {
 func (p *credProp) sequential(rc *RunCtx, sc *Scenario, cp *CredParams, info *RunInfo) *Verdict {
 	var v *Verdict
 	// one execution; crashK>0 freezes the disk before the k-th mutating op of the victim
-	run := func(dir string, crashK int) (res simrt.Result, nmut int, before, after *credModel, path string) {
+	run := func(dir string, crashK int, eio bool) (res simrt.Result, nmut int, before, after *credModel, path string) {
 		path = writeInitial(dir, cp.Initial)
 		fs, err := credentials.NewFileStore(path)
 		if err != nil {
@@ -473,10 +473,13 @@ func (p *credProp) sequential(rc *RunCtx, sc *Scenario, cp *CredParams, info *Ru
 				if i == cp.Victim && cp.Victim >= 0 {
 					before, after = m, next
 					m0 := simos.MutCount()
-					if crashK > 0 {
+					if crashK > 0 && eio {
+						simos.SetFailAtMut(crashK) // this disk operation fails with EIO instead; the process lives on
+					} else if crashK > 0 {
 						simos.SetCrashAtMut(crashK)
 					}
 					got := execCred(fs, op)
+					simos.SetFailAtMut(0)
 					nmut = simos.MutCount() - m0
 					if crashK > 0 {
 						return
@@ -519,7 +522,7 @@ func (p *credProp) sequential(rc *RunCtx, sc *Scenario, cp *CredParams, info *Ru
 		}
 		return
 	}
-	res, nmut, before, after, _ := run(filepath.Join(rc.DiskDir, "k0"), 0)
+	res, nmut, before, after, _ := run(filepath.Join(rc.DiskDir, "k0"), 0, false)
 	info.Outcome = string(res.Outcome)
 	if v != nil {
 		return v
@@ -537,7 +540,7 @@ func (p *credProp) sequential(rc *RunCtx, sc *Scenario, cp *CredParams, info *Ru
 			continue
 		}
 		dir := filepath.Join(rc.DiskDir, fmt.Sprintf("k%d", k))
-		resk, _, _, _, path := run(dir, k)
+		resk, _, _, _, path := run(dir, k, false)
 		evals++
 		info.Faults["crash"]++
 		for k2, c2 := range simos.Snapshot().Fired {
@@ -563,6 +566,29 @@ func (p *credProp) sequential(rc *RunCtx, sc *Scenario, cp *CredParams, info *Ru
 			info.Nontrivial = true
 		}
 		info.MoreHashes = append(info.MoreHashes, simrt.Mix(uint64(k), simrt.Mix(strHash(before.key()), strHash(cp.Ops[cp.Victim].Op))))
+		// the same disk operation failing with EIO (the save may report it): old or new document all the same
+		dirE := filepath.Join(rc.DiskDir, fmt.Sprintf("e%d", k))
+		rese, _, _, _, pathE := run(dirE, k, true)
+		evals++
+		for k2, c2 := range simos.Snapshot().Fired {
+			if strings.HasPrefix(k2, "eio") {
+				info.Faults[k2] += c2
+			}
+		}
+		if v != nil {
+			return v
+		}
+		if rese.Outcome != simrt.OK {
+			return violation("harness", "", "disk-error run did not complete: %s", rese.Outcome)
+		}
+		e1 := docMatches(pathE, before, cp.Initial)
+		e2 := docMatches(pathE, after, cp.Initial)
+		if e1 != "" && e2 != "" {
+			c2 := *cp
+			c2.OnlyK = k
+			sc.Params, _ = json.Marshal(c2)
+			return violation("disk-error-damaged-config", "", "victim %s whose mutating disk operation %d of %d failed with EIO: the file is neither the old document (%s) nor the new one (%s)\nhistory: %v", cp.Ops[cp.Victim], k, nmut, e1, e2, cp.Ops[:cp.Victim])
+		}
 	}
 	info.Evals = evals
 	info.CaseHash = simrt.Mix(info.CaseHash, info.StateHash)
